@@ -304,7 +304,96 @@ theorem dictSet_mem {V : Type} (d : List (String × V)) (k : String) (v : V) (p 
         · left; exact h
         · right; exact List.mem_cons_of_mem _ h
 
-theorem uncontrolled_spec (infra : Infra K) (l : List (Session K)) :
+theorem dictSet_lookup {V : Type} (d : List (String × V)) (k k' : String) (v : V) :
+    (dictSet d k v).lookup k' = if k' = k then some v else d.lookup k' := by
+  induction d with
+  | nil =>
+    by_cases h : k' = k
+    · simp [dictSet, List.lookup, h]
+    · have hb : (k' == k) = false := by simpa using h
+      simp [dictSet, List.lookup, h, hb]
+  | cons q t ih =>
+    obtain ⟨k0, v0⟩ := q
+    unfold dictSet
+    by_cases h0 : k0 = k
+    · subst h0
+      by_cases h : k' = k0
+      · simp [List.lookup, h]
+      · have hb : (k' == k0) = false := by simpa using h
+        simp [List.lookup, h, hb]
+    · have hb : (k0 == k) = false := by simpa using h0
+      simp only [hb, Bool.false_eq_true, if_false, List.lookup]
+      by_cases h1 : k' = k0
+      · have : k' ≠ k := by rw [h1]; exact h0
+        simp [h1, h0]
+      · have hb1 : (k' == k0) = false := by simpa using h1
+        simp only [hb1]
+        exact ih
+
+/-- the dict built by the uncontrolled baseline, read by station id: the entry of the LAST active
+    session at that station (a Python dict assignment overwrites), `none` if there is none -/
+theorem uncontrolled_lookup (infra : Infra K) (l : List (Session K)) (st : String) :
+    (uncontrolled infra l).lookup st =
+      (l.reverse.find? (fun s => s.station == st)).map (fun s => [infra.maxPilot.getD s.idx 0]) := by
+  unfold uncontrolled
+  have : ∀ (l : List (Session K)) (acc : List (String × List K)),
+      (l.foldl (fun d s => dictSet d s.station [infra.maxPilot.getD s.idx 0]) acc).lookup st =
+        match l.reverse.find? (fun s => s.station == st) with
+        | some s => some [infra.maxPilot.getD s.idx 0]
+        | none => acc.lookup st := by
+    intro l
+    induction l with
+    | nil => intro acc; simp
+    | cons h t ih =>
+      intro acc
+      simp only [List.foldl_cons, List.reverse_cons, List.find?_append]
+      rw [ih]
+      cases hf : t.reverse.find? (fun s => s.station == st) with
+      | some s => simp
+      | none =>
+        simp only [Option.none_or, List.find?_cons, List.find?_nil]
+        rw [dictSet_lookup]
+        by_cases hh : h.station = st
+        · simp [hh]
+        · have hne : ¬ st = h.station := fun e => hh e.symm
+          have hb : (h.station == st) = false := by simpa using hh
+          simp [hne, hb]
+  rw [this l []]
+  cases l.reverse.find? (fun s => s.station == st) <;> simp [List.lookup]
+
+/-- `uncontrolled_spec` (full, as a lookup equality): with distinct stations, every active session's
+    station maps to exactly `[max_pilot(station)]`, and a station without active session is absent
+    from the dict (the simulator then applies 0). -/
+theorem uncontrolled_spec (infra : Infra K) (l : List (Session K))
+    (hnd : (l.map (·.station)).Nodup) :
+    (∀ s ∈ l, (uncontrolled infra l).lookup s.station = some [infra.maxPilot.getD s.idx 0]) ∧
+    (∀ st, (∀ s ∈ l, s.station ≠ st) → (uncontrolled infra l).lookup st = none) := by
+  constructor
+  · intro s hs
+    rw [uncontrolled_lookup]
+    cases hf : l.reverse.find? (fun u => u.station == s.station) with
+    | none =>
+      have := List.find?_eq_none.mp hf s (List.mem_reverse.mpr hs)
+      simp at this
+    | some u =>
+      have hu : u ∈ l := List.mem_reverse.mp (List.mem_of_find?_eq_some hf)
+      have hst : u.station = s.station := by simpa using List.find?_some hf
+      have : u = s := by
+        by_contra hne
+        have := List.inj_on_of_nodup_map hnd hu hs hst
+        exact hne this
+      rw [this]; rfl
+  · intro st hst
+    rw [uncontrolled_lookup]
+    have : l.reverse.find? (fun s => s.station == st) = none := by
+      rw [List.find?_eq_none]
+      intro s hs
+      have := hst s (List.mem_reverse.mp hs)
+      simpa using this
+    rw [this]; rfl
+
+/-- membership form -/
+theorem uncontrolled_mem (infra : Infra K) (l : List (Session K)) :
     ∀ p ∈ uncontrolled infra l, ∃ s ∈ l, p = (s.station, [infra.maxPilot.getD s.idx 0]) := by
   unfold uncontrolled
   have : ∀ (l : List (Session K)) (acc : List (String × List K)),
